@@ -30,6 +30,9 @@ def run(ctx):
     ctx.each(r16h, ctx, repo)
     ctx.each(r16i, ctx, repo)
     ctx.each(r16j, ctx, repo)
+    from . import shapes
+
+    ctx.each(shapes.resolved_name_rule, ctx, repo, "R16l", "programs", "ProgramSet")
     ctx.each(informational, ctx, repo)
 
 
